@@ -85,8 +85,10 @@ def run(tier, seed):
     HASH_HISTORIES = [["fit:daily:A", "fit:billing:A", "fit:daily_legacy:A"], ["fit:hourly:A", "fit:hourly_solar:A"], ["fit:caltrack:A"]]
     # developer profiles that select a randomised optimiser: twice in one process, and in fresh processes
     RAND_HISTORIES = [["fit:daily_crs2:A", "fit:daily_crs2:A", "fit:daily_stogo:A"]] + ([["fit:daily_esch:A", "fit:daily_stogo:A", "fit:daily_esch:A"]] if tier == "thorough" else [])
+    # meters of a fleet that cover the SAME instants (an extract cut on UTC boundaries) in different zones, fitted one after the other
+    ZONE_HISTORIES = [["fit:caltrack_pacific:A", "fit:caltrack_eastern:A"]] + ([["fit:caltrack_eastern:A", "fit:caltrack_pacific:A", "fit:caltrack_eastern:A"]] if tier == "thorough" else [])
     ref_ops = sorted(set(("fit:" + a.split(":", 1)[1] if a.startswith(("use:", "refit:")) else a).replace("fit:hourly_late:", "fit:hourly:")
-                         for a in checked) | {op for h in HASH_HISTORIES + RAND_HISTORIES for op in h})
+                         for a in checked) | {op for h in HASH_HISTORIES + RAND_HISTORIES + ZONE_HISTORIES for op in h})
     stats = {"processes": 0, "fits_compared": 0}
 
     def ref_of(op):
@@ -239,6 +241,7 @@ def run(tier, seed):
         hseeds = ["1", "4242"] + (["random", "7", "123456789"] if tier == "thorough" else [])
         futs = [(hs, h, tp.submit(run_history, h, None, {"PYTHONHASHSEED": hs})) for hs in hseeds for h in HASH_HISTORIES]
         futs += [("0", h, tp.submit(run_history, h, None, {"PYTHONHASHSEED": "0"})) for h in RAND_HISTORIES]
+        futs += [("zones", h, tp.submit(run_history, h, None, {"PYTHONHASHSEED": "0"}, None, 3000)) for h in ZONE_HISTORIES]
         # the process's own local timezone (the references run under TZ=UTC)
         futs += [("tz:" + z, h, tp.submit(run_history, h, None, {"TZ": z, "VERIF_KEEP_TZ": "1", "PYTHONHASHSEED": "0"}))
                  for z in (("America/Los_Angeles", "Asia/Kolkata") if tier == "quick" else ("America/Los_Angeles", "Asia/Kolkata", "Australia/Sydney", "Pacific/Apia"))
@@ -248,7 +251,7 @@ def run(tier, seed):
             stats["processes"] += 1
             n_env += 1
             for op, r in zip(h, res["ops"]):
-                judge(op, r, "randomised_optimiser_profile" if h in RAND_HISTORIES else "process_timezone" if hs.startswith("tz:") else "string_hash_seed",
+                judge(op, r, "same_instants_other_zone_fitted_before" if h in ZONE_HISTORIES else "randomised_optimiser_profile" if h in RAND_HISTORIES else "process_timezone" if hs.startswith("tz:") else "string_hash_seed",
                       f"{'TZ=' + hs[3:] if hs.startswith('tz:') else 'PYTHONHASHSEED=' + hs} history {h}")
     # ---- every model fitted anywhere above was serialised and used again at the end of its process
     late_models = 0
